@@ -53,6 +53,7 @@ type Spec struct {
 	MaxSteps         int
 	Note             string // what the harness encodes (goes to evidence)
 	QuickOnly        bool
+	HangCheck        bool     // a path over the step budget is a 'terminates' failure (confirmed natively under a timeout)
 	Asserts          []string // assertion-id prefixes that belong to this property (nil = all)
 	ThoroughOnly     bool
 }
@@ -610,6 +611,7 @@ func configure(ex *exec.Exec, s *Spec, params map[string]int) {
 		}
 	}
 	ex.PoolFork = s.PoolFork
+	ex.HangAsFailure = s.HangCheck
 	if s.MaxSteps > 0 {
 		ex.MaxSteps = s.MaxSteps
 	}
